@@ -138,8 +138,11 @@ class Gen:
             elif L == "JavaScript":
                 p = nm
                 k = self.r.random()
-                if k < 0.15:
+                if k < 0.12:
                     p += " = 1"
+                elif k < 0.17 and self.opts["strings"]:
+                    p += self.r.choice([' = "("', " = ')'"])
+                    self.features.add("paren-string")
                 elif k < 0.25:
                     p += " = mk(2)"
                     self.features.add("default-call")
@@ -289,8 +292,11 @@ class Gen:
         elif k < 0.65 and self.opts["strings"]:
             self.o.code('s = "{ ( } ) // # def f():";', owners)
             self.features.add("string-delims")
+        elif k < 0.69 and self.opts["strings"]:
+            self.o.code(self.r.choice(['s = call("(");', 's = call(")");', 's = "{";', 's = "}";']), owners)
+            self.features.add("paren-string")
         elif k < 0.72 and self.opts["strings"] and L in ("C", "Cpp", "CSharp", "Java"):
-            self.o.code("c = '{';", owners)
+            self.o.code(self.r.choice(["c = '{';", "c = '(';", "c = ')';"]), owners)
             self.features.add("char-delim")
         elif k < 0.8:
             self.o.code("total = total + call(x, (y + 1));", owners)
@@ -511,6 +517,9 @@ class Gen:
             elif k < 0.5:
                 p += "={}"
                 self.features.add("brace-params")
+            elif k < 0.58 and self.opts["strings"]:
+                p += self.r.choice(['="("', '=")"', "='('"])
+                self.features.add("paren-string")
             ps.append(p)
         if self.opts["multiline_header"] and len(ps) >= 2 and self.r.random() < 0.25:
             self.features.add("multiline-header")
@@ -562,9 +571,12 @@ class Gen:
             self.o.code("x = x + 1", owners)
         elif k < 0.6:
             self.o.code("y = call(a, b)", owners)
-        elif k < 0.7 and self.opts["strings"]:
+        elif k < 0.66 and self.opts["strings"]:
             self.o.code('s = "{ ( } ) # def f():"', owners)
             self.features.add("string-delims")
+        elif k < 0.7 and self.opts["strings"]:
+            self.o.code(self.r.choice(['s = call("(")', 's = sep.join(")")', "s = '{'"]), owners)
+            self.features.add("paren-string")
         elif k < 0.78:
             self.o.code("z = call(a,", owners)
             self.o.nl()
